@@ -107,3 +107,17 @@ def check_fresh_graph(rep: Rep, w: Walker, first_seq: int, pre: str = "") -> Non
 def show_term(t):
     from .ir import show
     return show(t)
+
+
+def inline_same_module_private(fi: FunctionInfo):
+    """Inline private module-level helpers (and private methods of the same class) of the entry's module."""
+    def pred(f: FunctionInfo) -> bool:
+        if not f.name.startswith("_") or f.name.startswith("__"):
+            return False
+        return f.module == fi.module and (f.cls is None or f.cls == fi.cls)
+    return pred
+
+
+def walk_function_with_helpers(repo: Repo, module: str, name: str) -> Walker:
+    fi = repo.need_function(module, name)
+    return Walker(repo, fi, inline=inline_same_module_private(fi))
